@@ -325,6 +325,8 @@ class Collections:
             return seq("iter", items[:n] if name == "take" else items[n:])
         if name == "enumerate":
             return seq("iter", [("tuple", [E.Int(i), x]) for i, x in enumerate(items)])
+        if name == "zip" and len(args) == 2 and self._get(it, args[1]) is not None:
+            return seq("iter", [("tuple", [x, y]) for x, y in zip(items, self._get(it, args[1])[2])])
         if name == "chain" and len(args) == 2 and self._get(it, args[1]) is not None:
             return seq("iter", items + self._get(it, args[1])[2])
         if name in ("find", "find_map"):
